@@ -18,7 +18,7 @@ def run(chk, prop='C11'):
     chk.validate('beam', 'Trace_Beam', 'Trace_Beam.cfg', recs, driver='beam', jobs=14)
     kind = 'souden' if prop == 'C11' else 'gev'
     goods = [r for r in recs if r['kind'] == kind and r['exc'] == '' and r['items']]
-    good = goods[0]
+    good = goods[0] if goods else None
 
     def corrupt(r):
         w = r['items'][0]['w']
